@@ -1,4 +1,4 @@
-import IwModel.Lemmas.ExfDisk
+import IwModel.Lemmas.ExfDiverge
 /-! # C12 — reads through the extensible file return the bytes last written
 
 Property theorems only; definitions of the model are in `IwModel/Model/Exf.lean` (mirrors
@@ -322,6 +322,66 @@ example :
     SizeInv st ∧ Fits st 10 ∧ (ensureSize st 10).2.fsize = 16 := by
   refine ⟨⟨by decide, by decide, by decide⟩, ⟨by decide, by decide⟩, by decide⟩
 
+/-! ### Private (copy-on-write) windows, any number of them: the two-layer reference
+
+Reference (`Lemmas/ExfPriv.lean`, `ExfLay.lean`): the state has two layers — the file array and, per private window, the pages
+copied on write (`cow`, `ovl`). `view` is the byte a reader sees: the overlay byte of the private window that holds it, else the
+file byte. `layRead` reads byte by byte through the view; `layWrite` grows the file as `_exfile_write` does and then gives each
+private window the part of the request that lies in its mapped range (`clip`, copy-on-write of the touched pages) and writes
+every other byte into the file (`layFile`); nothing is split into pieces. All other calls act on one layer or one window
+already: sizes and window management, the store through one mapping, the copy inside the first window, and the copy through
+the file, which moves *file* bytes only. -/
+
+/-- what every history keeps, private windows included: sizes aligned and within `maxoff`; windows ascending, disjoint,
+    non-empty, mapped as far as the file reaches; window offsets and lengths page aligned; the disk at least `fsize` long -/
+theorem private_inv (st : St) (ops : List Op) (h : PInv st) : PInv (run st ops).1 := run_PInv ops st h
+
+/-- **Histories with private windows refine the two-layer reference**: every history (write / read / copy / truncate /
+    ensure_size / add private or shared window / remove window / store through a mapping / remap_all, failed calls included)
+    gives exactly the results and the final state of the two-layer machine `layRun`, which does no request splitting. -/
+theorem private_refines_two_layer (st : St) (ops : List Op) (h : PInv st) : run st ops = layRun st ops :=
+  run_eq_layRun ops st h
+
+/-- a read is the view, byte by byte, clipped at the logical size -/
+theorem read_is_view (st : St) (off : Int) (n : Nat) (h : PInv st) :
+    read st off n =
+      if off < 0 ∨ off + n > offTMax then (.oob, [])
+      else (.ok, (List.range (min n (st.fsize - off.toNat))).map fun k => view st.psize st.file st.slots (off.toNat + k)) :=
+  read_eq_lay st off n h.win h.disk
+
+/-- **Read after write, at full strength** (replaces `private_read_after_write_partial`): with any number of private and shared
+    windows, any range (straddling windows or not), with or without growth, a successful write is read back exactly. -/
+theorem private_read_after_write (st : St) (off : Int) (d : Bytes) (h : PInv st) (hok : (write st off d).1 = .ok) :
+    read (write st off d).2.2 off d.length = (.ok, d) :=
+  read_after_write_priv st off d h hok
+
+/-- **When a read differs from the flat array — exactly** (finding C12-PRIV). Let `v` be the bytes readers see before a call and
+    `expect st op v` the flat-array meaning of the call (write / store put their bytes, copy moves what readers saw, everything
+    else leaves the array alone). For every call on a state reachable with private windows and every byte `i` below the new
+    logical size (for a copy: source inside the file), a one-byte read after the call returns the two-layer view, and it differs from
+    the flat expectation **iff** `diverges st op i`:
+    * write / truncate / ensure_size: `i` was held in the overlay of a private window whose length this size change alters (so
+      the window is mapped anew and its overlay dropped), `i` is not overwritten by this very write, and the dropped overlay
+      byte differed from the file byte beneath it;
+    * remove_mmap: the same for the overlay of the removed window;
+    * copy that goes through the file (not the mapped branch of `_exfile_copy`): a destination byte held in an overlay keeps its
+      overlay value although readers saw something else at the source; any other destination byte receives the *file* byte of
+      the source although readers saw an overlay byte there;
+    * read, add_mmap, store through a mapping, mapped copy, remap_all: never. -/
+theorem private_diverges_iff (st : St) (op : Op) (i : Nat) (h : PInv st) (hc : 0 < st.cbuf)
+    (hsrc : ∀ off siz noff, op = .copy off siz noff → off + siz ≤ st.fsize)
+    (hi' : i < (exec st op).1.fsize) (hb : (i : Int) + 1 ≤ offTMax) :
+    read (exec st op).1 i 1 = (.ok, [view (exec st op).1.psize (exec st op).1.file (exec st op).1.slots i]) ∧
+    (view (exec st op).1.psize (exec st op).1.file (exec st op).1.slots i ≠
+        expect st op (view st.psize st.file st.slots) i ↔ diverges st op i) := by
+  have hP := exec_PInv st op h
+  exact ⟨read_one _ i hP.win hP.disk hi' hb, view_diverges_iff st op i h hc hsrc hi'⟩
+
+/-- with shared windows only nothing diverges (consistent with `shared_refines_flat`), and the view is the file -/
+theorem shared_never_diverges (st : St) (op : Op) (i : Nat) (hs : AllShared st.slots) :
+    ¬ diverges st op i ∧ view st.psize st.file st.slots i = st.file.getD i 0 :=
+  ⟨shared_not_diverges st op i hs, view_shared _ _ _ _ hs⟩
+
 /-- **Private windows, the part that holds.** A write that lies inside the mapped part of the first window
     (the layout iwkv uses: one window from offset 0) and needs no growth is read back exactly by a read of the
     same range — for a private window (page-granular copy-on-write overlay) as well as for a shared one,
@@ -381,5 +441,21 @@ example : SizeInv ({ psize := 4096, cbuf := 4096 } : St) ∧ AllShared ({ psize 
 example : Inv ({ psize := 4, cbuf := 4 } : St) ∧
     CopiesInside ({ psize := 4, cbuf := 4 } : St) [.write 0 [1, 2, 3, 4, 5], .copy 0 2 4, .truncate 4] :=
   ⟨⟨rfl, by simp⟩, by simp [CopiesInside]; decide⟩
+
+/-- non-vacuity of the private-window theorems: the witness states satisfy `PInv` -/
+example : PInv witness ∧ PInv witness2 := by
+  refine ⟨⟨⟨by decide, by decide, by decide⟩, ⟨by simp [witness], by simp [witness]; decide⟩, by simp [witness, AInv], by decide⟩,
+          ⟨⟨by decide, by decide, by decide⟩, ⟨by simp [witness2], by simp [witness2]; decide⟩, by simp [witness2, AInv], by decide⟩⟩
+
+/-- `diverges` holds on the three shapes of finding C12-PRIV (growth re-maps the window, the window is removed, a copy goes
+    through the file), at the byte written through the private window -/
+example :
+    diverges (run witness [.write 0 [9]]).1 (.ensure 5) 0 ∧
+    diverges (run witness [.write 0 [9]]).1 (.removeMmap 0) 0 ∧
+    diverges (run witness2 [.write 4 [9]]).1 (.copy 4 1 0) 0 := by
+  refine ⟨?_, ?_, ?_⟩
+  · simp only [diverges]; decide
+  · simp only [diverges]; decide
+  · simp only [diverges]; decide
 
 end IwModel.C12
